@@ -459,7 +459,12 @@ def more_generators(ctx):
         ctx.case(('point_cloud', n, no, pcls, seed), True, rec)
         ctx.count('random_sample_point_cloud/p=' + pcls)
         text, what = point_cloud_check(cloud, no, p, seed)
-        if text:
+        if text and what == 'probability_zero_drawn':
+            # OBSERVATION, not judged: the probability list is passed in the `replace` position of np.random.choice and is ignored.  The drawn points
+            # are still rows of the given cloud ("lie where described" in the sense of C14, which names the grid / circular / spherical / box
+            # generators); the docstring of `p` ("same size as no") does not pin the intended meaning down.
+            ctx.count('random_sample_point_cloud/observation: rows with probability 0 drawn (p is ignored)')
+        elif text:
             ctx.violation('random_sample_point_cloud: ' + text, rec, {'fn': 'random_sample_point_cloud', 'what': what, 'api': 'numpy', 'p': pcls})
     # ---------------- batch_of_rays: one-to-one, single point on either side repeated
     for k in range(ctx.n(24, 150)):
